@@ -2,7 +2,7 @@
 # Regression of the machinery against the independent seeded changes: each patch is applied to a scratch copy of /repo
 # (never to /repo itself) and the check of its property must report a VIOLATION (exit 1).  Exceptions are listed below.
 cd "$(dirname "$0")/.." || exit 2
-out=seeded/SELFTEST.txt; : > $out
+out=${SELFTEST_OUT:-seeded/SELFTEST.txt}; : > $out   # SELFTEST_FILTER=<regex on the change name> runs a part of the list (to split the work)
 declare -A expect; expect[C12-2]=0     # inside inverse_gamma_lr_impl (uninterpreted): not detectable by this technique
 expect[C09-4]=2; expect[C17-3]=2; expect[C17-7]=2; expect[C04-1]=2     # restructured `sample`: overlays lose their anchors and no bounded stand-in reaches `sample` -> undecided (exit 2), never an alarm
 # inside unverified callees (graph search / weight sum: uninterpreted functions, C03 not applicable): not detectable, exit 0
@@ -15,6 +15,7 @@ expect[C07-7]=0; expect[C12-3]=0   # rejected under another property's check onl
 bad=0
 for d in seeded/C*-*/; do
   n=$(basename $d); id=${n%-*}
+  if [ -n "$SELFTEST_FILTER" ] && ! [[ $n =~ $SELFTEST_FILTER ]]; then continue; fi
   scratch=$(mktemp -d /tmp/verif-selftest-XXXX)
   rsync -a --exclude target --exclude .git ${VERIF_BASE_REPO:-/repo}/ $scratch/
   if ! (cd $scratch && patch -s -p1 < /verif/$d/patch.diff); then echo "$n APPLY-FAILED" >> $out; rm -rf $scratch; bad=1; continue; fi
